@@ -16,6 +16,8 @@ var ownTriggers = map[string][]string{
 	"C08": {"snapshot-reserved"},
 	"C11": {"put-delete", "merge-absent"},
 	"C12": {"dup-key-in-txn", "concurrent-key-insert"},
+	"C17": {"ttl-change-during-pass"},
+	"C18": {"schema-change-beside-activity", "growth-beside-readers", "enum-write-beside-readers"},
 	"C19": {"double-delete"},
 }
 
@@ -23,7 +25,7 @@ var ownTriggers = map[string][]string{
 func knownAvoid(prop string, seed uint64, run int) avoid {
 	a := avoid{putThenDelete: true, failInCommit: true, mergeAfterReuse: true, lenMergeThenPut: true, dupKeyInTxn: true,
 		aggStale: true, rollbackInsert: true, unionAfterClear: true, doubleDelete: true, phantomReserved: true,
-		snapshotReserved: true, concurrentKeyInsert: true}
+		snapshotReserved: true, concurrentKeyInsert: true, ttlDuringPass: true, schemaChange: true, blockGrowth: true, enumBesideReaders: true}
 	r := NewRng(seed, uint64(run), 1234)
 	allow := func(name string) {
 		switch name {
@@ -51,6 +53,14 @@ func knownAvoid(prop string, seed uint64, run int) avoid {
 			a.snapshotReserved = false
 		case "concurrent-key-insert":
 			a.concurrentKeyInsert = false
+		case "ttl-change-during-pass":
+			a.ttlDuringPass = false
+		case "schema-change-beside-activity":
+			a.schemaChange = false
+		case "growth-beside-readers":
+			a.blockGrowth = false
+		case "enum-write-beside-readers":
+			a.enumBesideReaders = false
 		}
 	}
 	for _, t := range ownTriggers[prop] {
